@@ -1,7 +1,332 @@
-//! C11 — TODO
-use mc_core::Ctx;
+//! C11 — certified transaction, block and stake sets are reported exactly as signed.
+//!
+//! Bounded exhaustive response tampering on the real client-side code:
+//!  * `CardanoTransactionsProofsMessage::verify`, `CardanoTransactionsProofsV2Message::verify`,
+//!    `CardanoBlocksProofsMessage::verify` → `MessageBuilder::compute_cardano_*_proofs_message` →
+//!    `MithrilCertificate::match_message`                                             (c11_sets.rs)
+//!  * `MessageBuilder::compute_cardano_stake_distribution_message` /
+//!    `compute_mithril_stake_distribution_message` → `match_message`                  (c11_stake.rs)
+//! Honest values come from the real signable builders and the prover's MKMap steps (c11_world.rs);
+//! the alteration alphabet is in c11_alter.rs.
+//!
+//! Oracle (implication, never "a mutant must be rejected"): reported as certified ⇒ every reported
+//! item is, field by field, a member of the set the certificate signs, every proof carries the
+//! signed root, the reported block number / offset are the signed ones; stake distribution shown as
+//! verified ⇒ it is the certified map.  Completeness: honest answers are certified and reported whole.
 
-pub fn run(_ctx: &Ctx) -> ! {
-    eprintln!("C11: not implemented");
-    std::process::exit(2)
+use std::collections::{BTreeMap, BTreeSet};
+
+use mc_core::{Ctx, Report, catch, par_map};
+use mithril_common::entities::{BlockNumber, CardanoBlock, CardanoTransaction, IntoMKTreeNode, SlotNumber};
+use serde_json::json;
+
+use crate::c11_sets::{Job, Setup, run_job};
+use crate::c11_stake as stake;
+use crate::c11_world::{Chain, Fmt, world_legacy, world_v2};
+
+const V2_BEACONS: [u64; 2] = [44, 40];
+const LEGACY_BEACONS: [u64; 2] = [44, 29];
+/// depth-2 jobs are cut into this many chunks of first alterations (load balance only)
+const DEEP_CHUNKS: usize = 16;
+
+fn setup() -> Setup {
+    let chain = Chain::base();
+    let forged = chain.forged();
+    let mut worlds = vec![];
+    for b in V2_BEACONS {
+        worlds.push(world_v2(&chain, b));
+    }
+    for b in LEGACY_BEACONS {
+        worlds.push(world_legacy(&chain, b));
+    }
+    Setup { chain, forged, worlds }
+}
+
+/// (block number, index in block) of the queried transactions; `None` = a hash that is not on the chain
+fn tx_pool(chain: &Chain, picks: &[Option<(u64, usize)>]) -> Vec<String> {
+    picks
+        .iter()
+        .enumerate()
+        .map(|(i, p)| match p {
+            Some((n, k)) => chain.blocks.iter().find(|b| *b.block_number == *n).unwrap().transactions_hashes[*k].clone(),
+            None => { let _ = i; "tx-hash-absent".to_string() }
+        })
+        .collect()
+}
+
+fn block_pool(chain: &Chain, picks: &[Option<(u64, usize)>]) -> Vec<String> {
+    picks
+        .iter()
+        .enumerate()
+        .map(|(i, p)| match p {
+            Some((n, _)) => chain.blocks.iter().find(|b| *b.block_number == *n).unwrap().block_hash.clone(),
+            None => { let _ = i; "block-hash-absent".to_string() }
+        })
+        .collect()
+}
+
+fn subsets_up_to(pool: &[String], max: usize) -> Vec<Vec<String>> {
+    let mut out = vec![];
+    for mask in 1u32..(1 << pool.len()) {
+        if (mask.count_ones() as usize) <= max {
+            out.push((0..pool.len()).filter(|i| mask & (1 << i) != 0).map(|i| pool[i].clone()).collect());
+        }
+    }
+    out
+}
+
+fn leaf_identifier_probe(rep: &mut Report) {
+    // Is the item → leaf identifier mapping injective?  All tuples over small alphabets, through the
+    // real conversion used by prover and verifier alike.
+    let plain = ["a", "b", "ab", "a1", "1", "12", ""];
+    let slashed = ["a/b", "/a", "a/", "b/1", "1/2", "/"];
+    let numbers = [0u64, 1, 2, 12, 21, 121];
+    let all: Vec<&str> = plain.iter().chain(slashed.iter()).copied().collect();
+    let mut groups: BTreeMap<Vec<u8>, Vec<(String, bool)>> = BTreeMap::new();
+    let mut tuples = 0u64;
+    for th in &all {
+        for bh in &all {
+            for n in numbers {
+                for s in numbers {
+                    let leaf = CardanoTransaction::new(*th, BlockNumber(n), SlotNumber(s), *bh).into_mk_tree_node();
+                    let has_slash = th.contains('/') || bh.contains('/');
+                    groups.entry(leaf.to_vec()).or_default().push((format!("Tx(hash={th:?}, block_hash={bh:?}, n={n}, slot={s})"), has_slash));
+                    tuples += 1;
+                }
+            }
+        }
+    }
+    for bh in &all {
+        for n in numbers {
+            for s in numbers {
+                let leaf = CardanoBlock::new(*bh, BlockNumber(n), SlotNumber(s)).into_mk_tree_node();
+                groups.entry(leaf.to_vec()).or_default().push((format!("Block(hash={bh:?}, n={n}, slot={s})"), bh.contains('/')));
+                tuples += 1;
+            }
+        }
+    }
+    let mut coll_plain = 0u64;
+    let mut coll_slash = 0u64;
+    let mut example: Option<Vec<String>> = None;
+    for (leaf, members) in &groups {
+        rep.eval();
+        if members.len() > 1 {
+            let plain_members: Vec<&(String, bool)> = members.iter().filter(|m| !m.1).collect();
+            if plain_members.len() > 1 {
+                coll_plain += 1;
+                rep.violation(
+                    "C11/leaf-identifier-not-injective",
+                    format!(
+                        "different items without any '/' in a field share the Merkle leaf {:?}: {:?}",
+                        String::from_utf8_lossy(leaf),
+                        plain_members.iter().map(|m| m.0.clone()).collect::<Vec<_>>()
+                    ),
+                    json!({"part": "probe"}),
+                );
+            } else {
+                coll_slash += 1;
+                if example.is_none() {
+                    example = Some(members.iter().map(|m| m.0.clone()).collect());
+                }
+            }
+        }
+    }
+    rep.nontrivial(&("probe", tuples));
+    rep.outcome_n("probe:leaf-identifiers", groups.len() as u64);
+    rep.extra(
+        "leaf_identifier_probe",
+        json!({
+            "tuples": tuples,
+            "distinct_leaves": groups.len(),
+            "leaves_shared_by_items_without_slash_in_any_field": coll_plain,
+            "leaves_shared_only_when_a_hash_field_contains_a_slash": coll_slash,
+            "example_with_slash": example,
+            "note": "a '/' inside a hash field makes 'Tx/<hash>/<block hash>/<n>/<slot>' ambiguous; certified sets come from chain hashes (hex), so this is recorded as an observation, not a violation; digits cannot move between <n> and <slot> because of the separator",
+        }),
+    );
+}
+
+pub fn run(ctx: &Ctx) -> ! {
+    // the Mithril fixture builder keeps KES material under the system temp dir
+    let scratch = ctx.scratch();
+    unsafe { std::env::set_var("TMPDIR", &scratch) };
+
+    let thorough = ctx.tier == mc_core::Tier::Thorough;
+    let mut rep = Report::new(
+        "exploration",
+        "every query subset of <=3 items out of a pool of present / absent / beyond-the-beacon items spanning 3 block ranges, \
+         in the legacy and both v2 proof formats and at a full and a partial beacon, answered honestly and then with every \
+         alteration of the alteration alphabet (items, proofs, sub-proofs, roots, block number, offset, certificate pointer; \
+         <=1 at once quick, <=2 thorough on the sub-pool); every Cardano stake distribution of <=3 pools over 7 ids x 5 stakes \
+         and every edit of it (id, stake, characters moved across id/stake and entry boundaries, entries added/dropped, epoch); \
+         Mithril stake distributions of 1..3 certified signers and every edit of them. A case is non-trivial when the answer \
+         parses and reaches proof verification / message comparison; distinct = distinct answers (hash of the wire form)",
+    );
+    rep.max_samples = 12;
+
+    let setup = match catch(setup) {
+        Ok(s) => s,
+        Err(e) => {
+            rep.machinery_error(format!("honest world could not be built: {e} at {}", mc_core::last_panic_location()));
+            rep.finish(ctx)
+        }
+    };
+
+    // ---------------- replay
+    if let Some(path) = &ctx.replay {
+        let v = mc_core::load_replay(path);
+        match v["part"].as_str().unwrap_or("") {
+            "sets" => crate::c11_sets::replay(&setup, &v, &mut rep),
+            "csd" => stake::replay_csd(&v, &mut rep),
+            "msd" => {
+                let foreign = stake::foreign_fixture();
+                let worlds: Vec<stake::MsdWorld> = (1..=3).map(|n| stake::msd_world(n, &foreign)).collect();
+                stake::replay_msd(&worlds, &v, &mut rep);
+            }
+            _ => leaf_identifier_probe(&mut rep),
+        }
+        rep.nontrivial(&0);
+        rep.nontrivial(&1);
+        rep.finish(ctx);
+    }
+
+    // ---------------- transaction / block sets
+    let full_picks: Vec<Option<(u64, usize)>> = if thorough {
+        vec![Some((0, 0)), Some((14, 1)), Some((15, 0)), Some((29, 0)), Some((30, 1)), Some((41, 0)), Some((7, 0)), None, Some((22, 1)), Some((44, 0))]
+    } else {
+        vec![Some((0, 0)), Some((14, 1)), Some((15, 0)), Some((29, 0)), Some((30, 1)), Some((41, 0)), Some((7, 0)), None]
+    };
+    let sub_picks: Vec<Option<(u64, usize)>> = vec![Some((0, 0)), Some((14, 1)), Some((30, 1)), None];
+    let mut jobs: Vec<Job> = vec![];
+    for fmt in [Fmt::Legacy, Fmt::TxV2, Fmt::BlockV2] {
+        let beacons = if fmt == Fmt::Legacy { LEGACY_BEACONS } else { V2_BEACONS };
+        let (pool, sub) = if fmt == Fmt::BlockV2 {
+            (block_pool(&setup.chain, &full_picks), block_pool(&setup.chain, &sub_picks))
+        } else {
+            (tx_pool(&setup.chain, &full_picks), tx_pool(&setup.chain, &sub_picks))
+        };
+        // two alterations at once: every query of <= 2 items of the quick pool and every query of the sub-pool
+        let deep: BTreeSet<Vec<String>> = if thorough {
+            subsets_up_to(&pool[..8], 2).into_iter().chain(subsets_up_to(&sub, 3)).collect()
+        } else {
+            BTreeSet::new()
+        };
+        for beacon in beacons {
+            for q in subsets_up_to(&pool, 3) {
+                let depth = if deep.contains(&q) { 2 } else { 1 };
+                let sample = beacon == beacons[1]
+                    && (q == vec![pool[1].clone()] || q == vec![pool[0].clone(), pool[2].clone(), pool[7].clone()]);
+                let chunks = if depth >= 2 { DEEP_CHUNKS } else { 1 };
+                for chunk in 0..chunks {
+                    jobs.push(Job { fmt, beacon, query: q.clone(), depth, sample, chunk, chunks });
+                }
+            }
+        }
+    }
+    // expensive jobs first (load balance); results are merged in job order, so the verdict does not depend on it
+    jobs.sort_by_key(|j| std::cmp::Reverse((j.depth, j.query.len())));
+    let n_jobs = jobs.iter().filter(|j| j.chunk == 0).count();
+    let n_deep = jobs.iter().filter(|j| j.depth >= 2 && j.chunk == 0).count();
+    let results = par_map(&jobs, ctx.threads(), |_, j| run_job(&setup, j));
+    let mut bases = 0;
+    let sets_before = rep.evaluations;
+    // merge smallest queries first so that the kept counterexample of each key is a small one
+    let mut order: Vec<usize> = (0..results.len()).collect();
+    order.sort_by_key(|i| (jobs[*i].query.len(), jobs[*i].chunk, *i));
+    let mut results: Vec<Option<crate::c11_sets::JobResult>> = results.into_iter().map(Some).collect();
+    for i in order {
+        let r = results[i].take().unwrap();
+        bases += r.bases;
+        rep.merge(r.rep);
+    }
+    rep.extra(
+        "sets",
+        json!({
+            "chain": "45 blocks (3 ranges of 15), even blocks 2 transactions, odd blocks 1; mithril_common::test::builder::CardanoTransactionsBuilder",
+            "formats": ["legacy-tx", "v2-tx", "v2-block"],
+            "beacons": {"v2": V2_BEACONS, "legacy": LEGACY_BEACONS},
+            "query_pool_size": full_picks.len(),
+            "queries_per_format_and_beacon": subsets_up_to(&tx_pool(&setup.chain, &full_picks), 3).len(),
+            "jobs": n_jobs,
+            "jobs_with_2_alterations_at_once": n_deep,
+            "honest_answers": bases,
+            "evaluations": rep.evaluations - sets_before,
+        }),
+    );
+
+    eprintln!("[C11] sets done at {:.1}s", ctx.elapsed_s());
+    // ---------------- Cardano stake distribution
+    let family = stake::csd_family(3, &stake::IDS, &stake::STAKES);
+    // two alterations at once: on every distribution of <= 2 pools, and on those of 3 pools over 3 of the stakes
+    let deep_family: BTreeSet<u64> = if thorough {
+        stake::csd_family(2, &stake::IDS, &stake::STAKES)
+            .iter()
+            .chain(stake::csd_family(3, &stake::IDS, &[7, 10, 1234]).iter())
+            .map(mc_core::hash64)
+            .collect()
+    } else {
+        BTreeSet::new()
+    };
+    let csd_before = rep.evaluations;
+    let csd_results = par_map(&family, ctx.threads(), |_, sd| stake::run_csd(sd, if deep_family.contains(&mc_core::hash64(sd)) { 2 } else { 1 }));
+    let mut pairs_b: BTreeMap<u64, String> = BTreeMap::new();
+    let mut pairs_a: BTreeMap<u64, String> = BTreeMap::new();
+    // smallest distributions first
+    let mut order: Vec<usize> = (0..family.len()).collect();
+    order.sort_by_key(|i| (family[*i].map.len(), *i));
+    let mut csd_results: Vec<Option<stake::CsdResult>> = csd_results.into_iter().map(Some).collect();
+    for i in order {
+        let r = csd_results[i].take().unwrap();
+        rep.merge(r.rep);
+        pairs_b.extend(r.colliding_pairs_boundary);
+        pairs_a.extend(r.colliding_pairs_adjacent);
+    }
+    rep.extra(
+        "cardano_stake_distribution",
+        json!({
+            "pool_ids": stake::IDS,
+            "stakes": stake::STAKES,
+            "certified_distributions": family.len(),
+            "with_2_alterations_at_once": deep_family.len(),
+            "evaluations": rep.evaluations - csd_before,
+            "distinct_pairs_of_distributions_with_the_same_signed_message:id_stake_boundary_moved": pairs_b.len(),
+            "distinct_pairs_of_distributions_with_the_same_signed_message:adjacent_entries_boundary_moved": pairs_a.len(),
+            "examples:id_stake_boundary_moved": pairs_b.values().take(4).collect::<Vec<_>>(),
+            "examples:adjacent_entries_boundary_moved": pairs_a.values().take(4).collect::<Vec<_>>(),
+        }),
+    );
+
+    eprintln!("[C11] cardano stake distribution done at {:.1}s", ctx.elapsed_s());
+    // ---------------- Mithril stake distribution
+    let msd_before = rep.evaluations;
+    let foreign = stake::foreign_fixture();
+    let msd_worlds: Vec<stake::MsdWorld> = (1..=3).map(|n| stake::msd_world(n, &foreign)).collect();
+    let depth = if thorough { 2 } else { 1 };
+    let chunks = if thorough { 32 } else { 1 };
+    let mut msd_jobs = vec![];
+    for wi in 0..msd_worlds.len() {
+        for c in 0..chunks {
+            msd_jobs.push((wi, c));
+        }
+    }
+    let msd_results = par_map(&msd_jobs, ctx.threads(), |_, (wi, c)| stake::run_msd(&msd_worlds[*wi], depth, *c, chunks));
+    for r in msd_results {
+        rep.merge(r);
+    }
+    rep.extra(
+        "mithril_stake_distribution",
+        json!({"signers": [1, 2, 3], "certified_signers_with_operational_certificates": true, "alterations_at_once": depth, "evaluations": rep.evaluations - msd_before}),
+    );
+
+    eprintln!("[C11] mithril stake distribution done at {:.1}s", ctx.elapsed_s());
+    // ---------------- leaf identifier strings
+    leaf_identifier_probe(&mut rep);
+
+    rep.assume("the certificate named by an answer is obtained and its chain validated elsewhere (C03); here the client picks it from the set of certificates signed over the harness chain");
+    rep.assume("honest answers are built with the steps of MithrilProverService::compute_proof / LegacyMithrilProverService::compute_transactions_proofs (MKMap of block-range roots from the real BlockRangeRootRetriever default method, ranges of the queried items replaced by their MKTree, MKMap::compute_proof) because mithril-aggregator is not linked; block-range roots are those block_ranges_importer.rs stores (complete ranges only)");
+    rep.assume("signed messages are produced by the real CardanoBlocksTransactionsSignableBuilder / CardanoTransactionsSignableBuilder / CardanoStakeDistributionSignableBuilder over an in-memory store; the certificate's multi-signature is not checked here (C01/C03)");
+    rep.assume("the certified sets contain chain hashes without '/' (see leaf_identifier_probe); pool identifiers are arbitrary strings, as the StakeDistribution type allows");
+    rep.assume("certified Cardano pool identifiers are bech32 strings ('pool1…'): two distributions with the same signed root that differ by digits moved between one entry's stake and the NEXT entry's identifier exist only when a certified identifier begins with a decimal digit; they are counted (cardano_stake_distribution.*adjacent_entries*, observation_csd_*) but not reported as violations; the underlying cause (MKTree hashes the plain concatenation of variable-length raw leaves) is the one reported under C11/item-leaf-and-neighbour-node-concatenation");
+    rep.assume("a Mithril stake distribution's epoch and protocol_parameters fields are not part of 'the mapping from pools to stakes'; their not being bound by the recomputed message is counted as an observation");
+    rep.finish(ctx)
 }
